@@ -74,6 +74,14 @@ impl<'a, T: Read + Seek> QueueReader<'a, T> {
 
     /// Reads the next packet from the compressed vector and decodes it into the queues.
     pub fn advance(&mut self) -> Result<()> {
+        // If all records have a bit size of zero (integers with min=max) a point occupies no space at all.
+        // The writer never creates packets for such point clouds, so there is nothing to read from the file.
+        // All values are known from the prototype and are generated one point at a time.
+        let prototype = &self.pc.prototype;
+        if !prototype.is_empty() && prototype.iter().all(|r| r.data_type.bit_size() == 0) {
+            return self.parse_byte_streams(self.available() + 1);
+        }
+
         let packet_header = PacketHeader::read(self.reader)?;
         match packet_header {
             PacketHeader::Index(header) => {
